@@ -9,6 +9,7 @@ pub mod c02;
 pub mod c03;
 pub mod c04;
 pub mod c05;
+pub mod c06;
 pub mod tree;
 
 #[derive(Clone, Copy, Debug, Default)]
@@ -53,6 +54,7 @@ pub fn get(id: &str) -> Option<Box<dyn Check>> {
         "C03" => Some(Box::new(c03::C03)),
         "C04" => Some(Box::new(c04::C04)),
         "C05" => Some(Box::new(c05::C05)),
+        "C06" => Some(Box::new(c06::C06)),
         _ => None,
     }
 }
